@@ -1,16 +1,15 @@
 import sys, warnings; sys.path.insert(0,'/verif'); warnings.simplefilter('ignore')
-from symx import core, harness, loader
+from checks import common_models as cm
+from symx import core, loader
 from symx.explore import Explorer
-import numpy as np
 loader.install()
-pg=loader.load('sparse._prox_grad')
 def setup():
-    v=harness.free_matrix(1,1,'v'); u=harness.free_matrix(1,1,'u'); a=core.var('alpha','0+'); M=core.var('M','0+'); lr=core.var('lr','+')
-    return v,u,a*lr,M
-orig=pg.np.take_along_axis
-def body(arg):
-    v,u,thr,M=arg
-    return pg.mlp_prox_grad(v,u,thr,M)
-ex=Explorer(max_paths=3)
-for out,pc,tr in ex.run(body,setup):
-    print(out); print(pc); break
+    core.CTX.merge_sign=True; core.CTX.strict=True
+    return cm.PathEnv('SparseLinearModel',(3,1,2),gemini='mmd_ova',batch_size=2,max_iter=1,gemini_stub=True, y_given=False)
+ex=Explorer(max_paths=50)
+n=0
+for out,pc,tr in ex.run(lambda env: env.run_path(), setup):
+    n+=1
+    if hasattr(out,'tb'): print(out.tb[-800:]); break
+    print('steps',len(out.steps),[s['rows'] for s in out.steps],'val',[v['rows'] for v in out.val_calls], out.path_result[3], out.path_warnings[:1])
+print(n)
